@@ -7,6 +7,8 @@ package main
 
 import (
 	"fmt"
+
+	"golang.org/x/tools/go/ssa"
 )
 
 type addrSpace struct {
@@ -14,10 +16,11 @@ type addrSpace struct {
 	cellIDs    map[*Value]int
 	arrIDs     map[*ArrObj]int
 	nextCell   int
+	fnIDs      map[*ssa.Function]int
 }
 
 func newAddrSpace() *addrSpace {
-	return &addrSpace{byFuncAddr: map[*Term]*FuncV{}, cellIDs: map[*Value]int{}, arrIDs: map[*ArrObj]int{}}
+	return &addrSpace{byFuncAddr: map[*Term]*FuncV{}, cellIDs: map[*Value]int{}, arrIDs: map[*ArrObj]int{}, fnIDs: map[*ssa.Function]int{}}
 }
 
 const (
@@ -36,9 +39,26 @@ func (in *Interp) funcAddr(f *FuncV) *Term {
 	return f.addr
 }
 
+// codeVar: one code address per function body (closures of one function share it; all
+// reflect.MakeFunc values share makeFuncStub).
+func (in *Interp) codeVar(f *FuncV) *Term {
+	switch {
+	case f.fn != nil:
+		id, ok := in.addrs.fnIDs[f.fn]
+		if !ok {
+			id = len(in.addrs.fnIDs) + 1
+			in.addrs.fnIDs[f.fn] = id
+		}
+		return Var(64, fmt.Sprintf("fn%d.code", id))
+	case f.isMakeFunc:
+		return Var(64, "makeFuncStub.code")
+	}
+	return Var(64, fmt.Sprintf("fv%d.code", f.id))
+}
+
 func (in *Interp) funcCode(f *FuncV) *Term {
 	if f.code == nil {
-		f.code = Var(64, fmt.Sprintf("fv%d.code", f.id))
+		f.code = in.codeVar(f)
 	}
 	in.initFuncAddr(f)
 	return f.code
@@ -59,7 +79,7 @@ func (in *Interp) initFuncAddr(f *FuncV) {
 		in.addrs.byFuncAddr[f.addr] = f
 	}
 	if f.code == nil {
-		f.code = Var(64, fmt.Sprintf("fv%d.code", f.id))
+		f.code = in.codeVar(f)
 	}
 	p.addPC(Uge(f.addr, BV(64, heapLo)))
 	p.addPC(Ult(f.addr, BV(64, heapHi)))
@@ -82,6 +102,9 @@ func (in *Interp) initFuncAddr(f *FuncV) {
 	for _, o := range p.funcsWithAddr {
 		if o != f {
 			p.addPC(Ne(o.addr, f.addr))
+			if o.code != f.code {
+				p.addPC(Ne(o.code, f.code))
+			}
 		}
 	}
 	p.funcsWithAddr = append(p.funcsWithAddr, f)
